@@ -2,12 +2,13 @@
 C04/C05 over the interleaving model of one pipe's life (Rv/Model/PipeLife.lean):
 callers of Do/DoMulti, the writer, the reader, the exit path of `_background`, Close, the
 keep-alive watchdog and context-done events, every interleaving of their atomic steps.
-`fix = false` is the code as it is (pinned by `pipelife_shape_pinned`); `fix = true` is the
-model with the tail condition of Do/DoMulti repaired (see `close_race_strands_call`).
+`fix = true` is the code as it is since fix eac8ecc (tail of Do/DoMulti `waits == 1 && left != 0`, pinned by
+`pipelife_shape_pinned` in Rv/Props/C04bShape.lean); `fix = false` is the tail before that fix and occurs only
+in the witness `close_race_strands_call`. Theorems stated for an arbitrary `fix` hold for both.
 `p.state` ends at 4 (pipe.go: `atomic.StoreInt32(&p.state, 4)`), 3 is only the static dead pipe.
 -/
-import Rv.Lemmas.PipeLifeProgress
-import Rv.Gen.PipeShape
+import Rv.Lemmas.PipeLifeStarter
+import Rv.Lemmas.PipeLifeFrame
 namespace Rv.C04.Life
 open Rv.PipeLife
 
@@ -216,7 +217,7 @@ theorem done_ctx_returns {fix : Bool} {s : St} {i : Nat} (hst : stOf s i = some 
 /-- what the code does NOT promise: a command that is already queued when its context ends is still
     written (the server may execute a cancelled command) — witness run -/
 theorem aborted_entry_still_written :
-    ∃ s, run false (init [{ needBg := true, canDone := true }] false)
+    ∃ s, runNow (init [{ needBg := true, canDone := true }] false)
       [.enter 0, .decide 0, .put 0, .cancel 0, .abort 0, .wTake] = some s ∧
       s.log = [(0, .ctx)] ∧ s.wire = [0] := by
   exact ⟨_, rfl, rfl, rfl⟩
@@ -252,14 +253,26 @@ private theorem latched_run {fix : Bool} {s : St} {c k t : Bool} (hl : Latched s
     | none => rw [hs] at h; cases h
     | some s1 => rw [hs] at h; exact ih (latched_step hs hl) h
 
-/-- **no_reachable_deadlock.** In every reachable state in which the connection is dead or Close has
-    been called and the `_background` goroutine exists: as long as some call has incremented `waits`
-    and not been resolved, some internal step is enabled — a statement of a goroutine of the pipe, of a
-    caller past its admission, of Close, or Close's 1 s timer; never a server reply, a new caller or an
-    environment event. -/
-theorem no_reachable_deadlock {fix : Bool} {s : St} (hr : Reachable fix s) (ht : triggered s) (hbg : s.td ≠ .off)
-    {i : Nat} {cs : CS} (hst : stOf s i = some cs) (hw : cs.weight = 1) : canMove fix s :=
+/-- **no_reachable_deadlock.** The code as it is (repaired tail): in every reachable state in which the
+    connection is dead or Close has been called, as long as some call has incremented `waits` and not been
+    resolved, some internal step is enabled — a statement of a goroutine of the pipe, of a caller past its
+    admission, of Close, or Close's 1 s timer; never a server reply, a new caller or an environment event.
+    No hypothesis on `_background`: while it does not exist, a starter does (`starter_exists`). -/
+theorem no_reachable_deadlock {s : St} (hr : Reachable true s) (ht : triggered s)
+    {i : Nat} {cs : CS} (hst : stOf s i = some cs) (hw : cs.weight = 1) : canMove true s :=
+  no_deadlock_fixed hr ht hst hw
+
+/-- the same for either tail once `_background` exists -/
+theorem no_reachable_deadlock_with_background {fix : Bool} {s : St} (hr : Reachable fix s) (ht : triggered s)
+    (hbg : s.td ≠ .off) {i : Nat} {cs : CS} (hst : stOf s i = some cs) (hw : cs.weight = 1) : canMove fix s :=
   no_deadlock hr ht hbg hst hw
+
+/-- **starter_exists.** The code as it is: while `_background` does not exist and anybody holds `waits`,
+    a starter exists — a caller holding wait number 1 that has not passed its tail (`counted 1`, in the
+    sync path, or holding its result with `waits == 1 && left != 0 { background() }` still ahead), or Close
+    holding wait number 1 before its CAS. -/
+theorem starter_exists {s : St} (hr : Reachable true s) (htd : s.td = .off) (hw : 1 ≤ s.waits) : HasStarter s :=
+  hr.invJ htd hw
 
 /-- **measure_decreases.** Every step of every goroutine strictly decreases `mu`; a run from `s` has at
     most `mu s` steps. -/
@@ -270,39 +283,46 @@ theorem runs_are_bounded {fix : Bool} (ls : List Label) (s s' : St) (h : run fix
     ls.length ≤ mu s := by
   have := run_bounded ls s s' h; omega
 
-/-- **every_admitted_call_resolves_partial.** From every reachable state in which the connection is
-    dead or Close has been called, and in which `_background` has been started: every run of internal
-    steps has at most `mu s` steps, and when it is maximal (nothing internal is enabled any more) every
-    call that had started is resolved — it is `done` (returned exactly once, see `reply_exactly_once`)
-    and holds no unit of `waits`.
-    MISSING: the hypothesis `s.td ≠ .off`. Without it the statement is false for the code as it is:
-    see `close_race_strands_call`. With the tail condition of Do/DoMulti repaired the model resolves the
-    same schedule (`close_race_resolved_when_fixed`); the invariant that removes the hypothesis for the
-    repaired model is not proved here. -/
-theorem every_admitted_call_resolves_partial {fix : Bool} {s : St} (hr : Reachable fix s) (ht : triggered s)
+/-- the trigger persists along a run -/
+private theorem triggered_run {fix : Bool} {s : St} (ht : triggered s) (ls : List Label) (s2 : St)
+    (h : run fix s ls = some s2) : triggered s2 := by
+  have hl : Latched s (!s.connUp) (decide (s.close ≠ .idle)) false :=
+    ⟨fun h => by simpa using h, fun h => by simpa using h, fun h => by cases h⟩
+  have hl2 := latched_run hl ls s2 h
+  rcases ht with h1 | h1
+  · exact Or.inl (hl2.c (by simp [h1]))
+  · exact Or.inr (hl2.k (by simpa using h1))
+
+/-- **every_admitted_call_resolves.** The code as it is (repaired tail), full strength: from every reachable
+    state in which the connection is dead or Close has been called, every run of steps has at most `mu s`
+    steps, and whenever nothing internal is enabled at its end (in particular: at the end of every maximal
+    run of internal steps) every call that had started is resolved — it is `done` (returned exactly once,
+    see `reply_exactly_once`) and holds no unit of `waits`. -/
+theorem every_admitted_call_resolves {s : St} (hr : Reachable true s) (ht : triggered s)
+    (ls : List Label) (s2 : St) (h : run true s ls = some s2) (hmax : ¬ canMove true s2) :
+    ls.length ≤ mu s ∧ ∀ i cs, stOf s2 i = some cs → cs = .idle ∨ cs = .done := by
+  refine ⟨runs_are_bounded ls s s2 h, ?_⟩
+  intro i cs hst
+  have hr2 := reachable_run hr ls s2 h
+  have ht2 := triggered_run ht ls s2 h
+  by_cases hw : cs.weight = 1
+  · exact absurd (no_deadlock_fixed hr2 ht2 hst hw) hmax
+  · cases cs <;> simp_all [CS.weight]
+
+/-- for either tail, once `_background` exists (this is all that holds for the tail before eac8ecc) -/
+theorem resolves_once_background_started {fix : Bool} {s : St} (hr : Reachable fix s) (ht : triggered s)
     (hbg : s.td ≠ .off) (ls : List Label) (s2 : St) (h : run fix s ls = some s2)
     (hmax : ¬ canMove fix s2) :
     ls.length ≤ mu s ∧ ∀ i cs, stOf s2 i = some cs → cs = .idle ∨ cs = .done := by
   refine ⟨runs_are_bounded ls s s2 h, ?_⟩
   intro i cs hst
   have hr2 := reachable_run hr ls s2 h
-  have hl : Latched s (!s.connUp) (decide (s.close ≠ .idle)) true :=
-    ⟨fun h => by simpa using h, fun h => by simpa using h, fun _ => hbg⟩
+  have hl : Latched s false false true := ⟨fun h => (by cases h), fun h => (by cases h), fun _ => hbg⟩
   have hl2 := latched_run hl ls s2 h
-  have ht2 : triggered s2 := by
-    rcases ht with h1 | h1
-    · exact Or.inl (hl2.c (by simp [h1]))
-    · exact Or.inr (hl2.k (by simpa using h1))
+  have ht2 := triggered_run ht ls s2 h
   by_cases hw : cs.weight = 1
   · exact absurd (no_deadlock hr2 ht2 (hl2.t rfl) hst hw) hmax
   · cases cs <;> simp_all [CS.weight]
-
-/-- the same for a maximal run that may also contain server replies, new callers and environment
-    events: whenever nothing internal is enabled at its end, nothing is left -/
-theorem every_admitted_call_resolves_any_run {fix : Bool} {s : St} (hr : Reachable fix s) (ht : triggered s)
-    (hbg : s.td ≠ .off) (ls : List Label) (s2 : St) (h : run fix s ls = some s2) (hmax : ¬ canMove fix s2) :
-    ∀ i cs, stOf s2 i = some cs → cs = .idle ∨ cs = .done :=
-  (every_admitted_call_resolves_partial hr ht hbg ls s2 h hmax).2
 
 /-- how a stuck state looks (any `fix`): `_background` was never started and Close is not running -/
 theorem stuck_only_without_background {fix : Bool} {s : St} (hr : Reachable fix s) (ht : triggered s)
@@ -311,30 +331,32 @@ theorem stuck_only_without_background {fix : Bool} {s : St} (hr : Reachable fix 
       ∀ j cj, stOf s j = some cj → cj.weight = 1 → cj = .waiting ∨ cj = .aborted :=
   stuck_shape hr ht hstuck hst hw
 
-/-! ### the race that strands a queued call (the code as it is) -/
+/-! ### the race that stranded a queued call before fix eac8ecc -/
 
 /-- caller 0 has incremented `waits` (it holds number 1) but not loaded `state` yet; caller 1 queues
-    behind it; Close stores 2; caller 0 now reads 2, is rejected, and its tail `state == 0 && left != 0`
-    does not start `_background`; Close's own `waits == 1` test fails as well. -/
+    behind it; Close stores 2; caller 0 now reads 2 and is rejected. Before eac8ecc its tail
+    `state == 0 && left != 0` did not start `_background` (Close's own `waits == 1` test fails as well);
+    the repaired tail `waits == 1 && left != 0` does. -/
 def raceCalls : List Call := [{}, {}]
 def raceRun : List Label :=
   [.enter 0, .enter 1, .decide 1, .closeEnter .closing, .closeCas, .decide 0, .leave 0, .put 1,
    .closePing, .closeGrace, .closeTail]
 
 private theorem race_state :
-    run false (init raceCalls false) raceRun = some
+    runBefore_eac8ecc (init raceCalls false) raceRun = some
       { state := 2, waits := 2, err := some .closing, connUp := false,
         queue := [{ owner := .call 1 }, { owner := .closePing }],
         calls := [{ st := .done }, { st := .waiting }], close := .done, cpOwed := true,
         log := [(0, .closing)] } := by
   rfl
 
-/-- **close_race_strands_call.** The full progress statement is false for the code as it is: there is a
-    reachable state after Close returned in which call 1 waits on its result channel, `_background`
-    does not exist and no internal step is enabled — the call hangs (with a context that is never done)
-    and Close's PING helper goroutine leaks. -/
+/-- **close_race_strands_call.** For the tail before eac8ecc (`stepBefore_eac8ecc`) the progress statement
+    is false: there is a reachable state after Close returned in which call 1 waits on its result channel,
+    `_background` does not exist and no internal step is enabled — the call hangs (with a context that is
+    never done) and Close's PING helper goroutine leaks. Reproduced on the real pre-fix pipe with the
+    scheduling hook; the `pipelife` suite replays this schedule on the real pipe on every run. -/
 theorem close_race_strands_call :
-    ∃ s, run false (init raceCalls false) raceRun = some s ∧ triggered s ∧ stOf s 1 = some .waiting ∧
+    ∃ s, runBefore_eac8ecc (init raceCalls false) raceRun = some s ∧ triggered s ∧ stOf s 1 = some .waiting ∧
       s.td = .off ∧ s.close = .done ∧ ¬ canMove false s := by
   refine ⟨_, race_state, Or.inl rfl, rfl, rfl, rfl, ?_⟩
   intro ⟨l, s', hi, hs⟩
@@ -349,15 +371,31 @@ theorem close_race_strands_call :
     rcases i with _ | _ | i <;> simp [PipeLife.leave, stOf] at hs
   case abort i =>
     rcases i with _ | _ | i <;> simp [PipeLife.abort, stOf, ctxDoneOf] at hs
-  all_goals (first | (exact absurd hi (by decide)) | (simp [wTake, wFlush, rErr, tdSpawn, bgPingPut, tdIter, tdClose, closeCas, closePing, closeGot, closeGrace, closeTail, takeFirst] at hs))
+  all_goals (first | (exact absurd hi (by decide)) | (simp [wTake, wFlush, rErr, tdSpawn, bgPingPut, tdIter, tdClose, closeCas, closePing, closeGot, closeGrace, closeTail] at hs))
 
-/-- the same schedule in the model with the repaired tail (`waits == 1 && left != 0`): caller 0's tail
-    starts `_background`, which drains the queue; everything returns and the pipe reaches state 4 -/
+private theorem race_state_now :
+    runNow (init raceCalls false) raceRun = some
+      { state := 2, waits := 2, err := some .closing, connUp := false,
+        queue := [{ owner := .call 1 }, { owner := .closePing }],
+        calls := [{ st := .done }, { st := .waiting }], td := .reading, writer := .run false,
+        close := .done, cpOwed := true, log := [(0, .closing)] } := by
+  rfl
+
+/-- **close_race_resolved_when_fixed.** Corollary of `every_admitted_call_resolves` for the code as it is:
+    the same schedule ends in a state where caller 0's tail has started `_background`; from there every
+    run that ends with nothing internal enabled has resolved call 1, within the measure; and the concrete
+    continuation (writer, reader error, drain) reaches state 4 with `waits = 0` and both calls returned. -/
 theorem close_race_resolved_when_fixed :
-    ∃ s, run true (init raceCalls false)
-      (raceRun ++ [.wTake, .wTake, .wFlush, .rErr, .tdSpawn, .tdIter, .leave 1, .tdIter, .tdIter, .tdClose]) = some s ∧
-      s.state = 4 ∧ s.waits = 0 ∧ s.log = [(0, .closing), (1, .closing)] ∧ s.queue = [] := by
-  exact ⟨_, rfl, rfl, rfl, rfl, rfl⟩
+    ∃ s, runNow (init raceCalls false) raceRun = some s ∧ s.td ≠ .off ∧
+      (∀ ls s2, run true s ls = some s2 → ¬ canMove true s2 →
+        ls.length ≤ mu s ∧ ∀ i cs, stOf s2 i = some cs → cs = .idle ∨ cs = .done) ∧
+      (∃ s4, run true s [.wTake, .wTake, .wFlush, .rErr, .tdSpawn, .tdIter, .leave 1, .tdIter, .tdIter, .tdClose] = some s4 ∧
+        s4.state = 4 ∧ s4.waits = 0 ∧ s4.log = [(0, .closing), (1, .closing)] ∧ s4.queue = []) := by
+  refine ⟨_, race_state_now, by decide, ?_, ⟨_, rfl, rfl, rfl, rfl, rfl⟩⟩
+  intro ls s2 h hmax
+  have hr : Reachable true _ :=
+    reachable_run (.init raceCalls false true (by decide)) raceRun _ race_state_now
+  exact every_admitted_call_resolves hr (Or.inl rfl) ls s2 h hmax
 
 /-! ### non-vacuity: a concrete life with three callers that ends in state 4 -/
 
@@ -371,70 +409,23 @@ def exRun : List Label :=
    .wTake, .wTake, .cancel 2, .abort 2, .connBreak,
    .wFlush, .rErr, .tdSpawn, .tdIter, .leave 1, .tdIter, .tdIter, .tdClose]
 
-example : ∃ s, run false (init exCalls false) exRun = some s ∧ s.state = 4 ∧ s.waits = 0 ∧ s.queue = [] ∧
+example : ∃ s, runNow (init exCalls false) exRun = some s ∧ s.state = 4 ∧ s.waits = 0 ∧ s.queue = [] ∧
     s.log = [(0, .reply), (2, .ctx), (1, .transport)] ∧ s.wire = [0, 1, 2] ∧
     s.calls.map (·.st) = [.done, .done, .done] := ⟨_, rfl, rfl, rfl, rfl, rfl, rfl, rfl⟩
 
-theorem ex_reachable : ∀ s, run false (init exCalls false) exRun = some s → Reachable false s := fun s h =>
+theorem ex_reachable : ∀ s, runNow (init exCalls false) exRun = some s → Reachable true s := fun s h =>
   reachable_run (.init exCalls false true (by decide)) exRun s h
 
 /-- the hypotheses of the progress theorem are satisfiable: the state after `connBreak` in the run above -/
-example : ∃ s, run false (init exCalls false) (exRun.take 15) = some s ∧ triggered s ∧ s.td ≠ .off ∧
+example : ∃ s, runNow (init exCalls false) (exRun.take 15) = some s ∧ triggered s ∧ s.td ≠ .off ∧
     stOf s 1 = some .waiting := ⟨_, rfl, Or.inl rfl, by decide, rfl⟩
 
 /-- Close with a stalled server: the PING waits behind the pending command, the 1 s timer fires,
     Close closes the connection, the drain hands ErrClosing to the pending call -/
-example : ∃ s, run false (init [{ needBg := true }] false)
+example : ∃ s, runNow (init [{ needBg := true }] false)
     [.enter 0, .decide 0, .put 0, .wTake, .wFlush, .closeEnter .closing, .closeCas, .closePing, .wTake, .wFlush,
      .closeGrace, .closeTail, .rErr, .tdSpawn, .bgPingPut, .wTake, .wFlush, .tdIter, .leave 0, .tdIter, .tdIter,
      .tdIter, .tdClose] = some s ∧
     s.state = 4 ∧ s.log = [(0, .closing)] ∧ s.waits = 0 := ⟨_, rfl, rfl, rfl, rfl⟩
-
-/-! ### the model is the code: facts re-extracted from pipe.go on every run -/
-
-open Rv.Gen.PipeShape in
-/-- **pipelife_shape_pinned.** The statements the model transcribes, re-extracted from pipe.go on every
-    run: the values ever written to `p.state` (0→1 in `background`, 1→2 in `_exit`, 0→2/1→2 in `Close`,
-    the final store 4, the static dead pipes 3); `background()` and `_exit` statement by statement (error
-    latch, then state CAS, then `conn.Close`); the exit path of `_background` in order (writer exit closes
-    `p.close`, `_exit(rerr)`, the wake-up PING, `p.Error()`, the loop `for p.loadWaits() != 0`, `<-p.close`,
-    the store); the drain loop body; the deferred handler of the reader; `Close` statement by statement;
-    in Do/DoMulti the order ctx check, `incrWaits`, state load, reject branch, tail, put, select, abort
-    goroutine, and the tail condition `state == 0 && left != 0` (the model's `fix = false`). -/
-theorem pipelife_shape_pinned :
-    stateWrites =
-      ["background: atomic.CompareAndSwapInt32(&p.state, 0, 1)", "_exit: atomic.CompareAndSwapInt32(&p.state, 1, 2)",
-       "_background: atomic.StoreInt32(&p.state, 4)", "Close: atomic.CompareAndSwapInt32(&p.state, 0, 2)",
-       "Close: atomic.CompareAndSwapInt32(&p.state, 1, 2)", "deadFn: pipe{state: 3}", "epipeFn: pipe{state: 3}"] ∧
-    background_inner =
-      ["atomic.CompareAndSwapInt32(&p.state, 0, 1)",
-       "if atomic.CompareAndSwapInt32(&p.bgState, 0, 1) { go p._background() }"] ∧
-    body__exit =
-      ["p.error.CompareAndSwap(nil, &errs{error: err})", "atomic.CompareAndSwapInt32(&p.state, 1, 2)",
-       "_ = p.conn.Close()", "p.clhks.Load().(func(error))(err)"] ∧
-    backgroundOrder =
-      ["writerExit", "readerExit", "wakeupPing", "loadError", "drainLoop", "awaitWriter", "storeClosed"] ∧
-    backgroundEndsWithStore = true ∧ wakeupPingDecrements = true ∧ readDeferCompletesInflight = true ∧
-    drainLoopBody =
-      ["select { case <-p.close: closed = true _, _, _ = p.queue.NextWriteCmd() default: }",
-       "if _, _, ch, resps = p.queue.NextResultCh(); ch != nil { resp := resp if !closed || p.rcnt < p.wcnt { resp = sent } p.rcnt++ for i := range resps { resps[i] = resp } ch <- resp p.queue.FinishResult() } else { p.queue.FinishResult() runtime.Gosched() }"] ∧
-    closeStmts =
-      ["p.error.CompareAndSwap(nil, errClosing)", "block := atomic.AddInt32(&p.blcksig, 1)", "waits := p.incrWaits()",
-       "stopping1 := atomic.CompareAndSwapInt32(&p.state, 0, 2)", "stopping2 := atomic.CompareAndSwapInt32(&p.state, 1, 2)",
-       "if p.queue != nil { if stopping1 && waits == 1 { p.background() } if block == 1 && (stopping1 || stopping2) { p.incrWaits() ch, _ := p.queue.PutOne(context.Background(), cmds.PingCmd) select { case <-ch: p.decrWaits() case <-time.After(time.Second): go func(ch chan RedisResult) { <-ch p.decrWaits() }(ch) } } }",
-       "p.decrWaits()", "atomic.AddInt32(&p.blcksig, -1)", "if p.pingTimer != nil { p.pingTimer.Stop() }",
-       "if p.authTimer != nil { p.authTimer.Stop() }", "if p.conn != nil { p.conn.Close() }",
-       "if p.r2p != nil { p.r2p.Close() }"] ∧
-    expiredStmts = ["p.error.CompareAndSwap(nil, errExpired)", "p.Close()"] ∧
-    stateLoadAfterIncr_Do = true ∧ stateLoadAfterIncr_DoMulti = true ∧
-    admissionOrder_Do = ["ctxCheck", "incrWaits", "loadState", "reject", "tail", "put", "select", "abort"] ∧
-    admissionOrder_DoMulti = ["ctxCheck", "incrWaits", "loadState", "reject", "tail", "put", "select", "abort"] ∧
-    tail_Do = "left := p.decrWaitsAndIncrRecvs(); state == 0 && left != 0 { p.background() }" ∧
-    tail_DoMulti = "left := p.decrWaitsAndIncrRecvs(); state == 0 && left != 0 { p.background() }" ∧
-    ctxCheckFirst_Do = true ∧ ctxCheckFirst_DoMulti = true ∧ selectOnDone_Do = true ∧ selectOnDone_DoMulti = true ∧
-    drainLoopsOnWaits = true ∧ drainChoosesByCounters = true ∧ drainSentGuard = true ∧
-    writerCountsBatches = true ∧ readerCountsFetches = true := by
-  refine ⟨rfl, rfl, rfl, rfl, rfl, rfl, rfl, rfl, rfl, rfl, rfl, rfl, rfl, rfl, rfl, rfl, rfl, rfl, rfl, rfl,
-    rfl, rfl, rfl, rfl, rfl⟩
 
 end Rv.C04.Life
